@@ -1,6 +1,7 @@
 package main
 
 import (
+	"strings"
 	"fmt"
 	"sync"
 	"time"
@@ -202,15 +203,40 @@ func runInflightSendVsDeliver(res *lp.Result) {
 // never answers, exactly N managed sends are accepted, with ids 1..N, and the next is refused; after the peer answers all of
 // them, N more are accepted.
 func runInflightConnection(res *lp.Result) {
-	for _, cfg := range [][2]int{{2, 5}, {3, 1}, {7, 2}, {1, 9}} {
+	// (the last configuration: a limit in the thousands and requests of 16 KiB, so that the peer, which reads nothing before the
+	// burst is over, stalls the writer: socket buffers and every queue on the way fill up)
+	for _, cfg := range [][2]int{{2, 5}, {3, 1}, {7, 2}, {1, 9}, {2000, 2}} {
 		n, p := cfg[0], cfg[1]
+		request := func() *frame.Frame { return frame.NewFrame(primitive.ProtocolVersion4, 0, &message.Options{}) }
+		if n > 1000 {
+			q := strings.Repeat("q", 16<<10)
+			request = func() *frame.Frame { return frame.NewFrame(primitive.ProtocolVersion4, 0, &message.Query{Query: q}) }
+		}
 		id := fmt.Sprintf("client connection with MaxInFlight=%d MaxPending=%d, peer that never answers", n, p)
 		res.Case(id, true)
 		res.Count("connection/limits")
 		srv, addr, cancel := startServer(nil)
+		srv.MaxInFlight = n + 8
+		var px *proxy
+		if n > 1000 {
+			// the peer stops reading once the connection is set up and reads again only when the burst is over
+			px, addr = startProxy(addr)
+		}
 		cl := newClient(addr, nil, primitive.CompressionNone, time.Hour)
 		cl.MaxInFlight, cl.MaxPending = n, p
-		cc, sc, err := srv.BindAndInit(cl, contextBackground(), primitive.ProtocolVersion4, 1)
+		var cc *client.CqlClientConnection
+		var sc *client.CqlServerConnection
+		var err error
+		if px == nil {
+			cc, sc, err = srv.BindAndInit(cl, contextBackground(), primitive.ProtocolVersion4, 1)
+		} else {
+			// (through the proxy the server knows the client under another address: accept whoever comes)
+			if cc, err = cl.Connect(contextBackground()); err == nil {
+				if sc, err = srv.AcceptAny(); err == nil {
+					err = client.PerformHandshake(cc, sc, primitive.ProtocolVersion4, 1)
+				}
+			}
+		}
 		if err != nil {
 			res.Add(lp.Finding{Kind: "harness", What: "cannot set up a connection", Input: id, Impl: err.Error()})
 			cancel()
@@ -218,8 +244,11 @@ func runInflightConnection(res *lp.Result) {
 		}
 		var reqs []client.InFlightRequest
 		seen := map[int16]bool{}
+		if px != nil {
+			px.hold()
+		}
 		for k := 0; k < n; k++ {
-			r, err := cc.Send(frame.NewFrame(primitive.ProtocolVersion4, 0, &message.Options{}))
+			r, err := cc.Send(request())
 			if err != nil {
 				res.Add(lp.Finding{Kind: "violation", What: "send refused although fewer than N requests are unanswered", Input: id,
 					Impl: fmt.Sprintf("send %d of %d: %v", k+1, n, firstWords(err.Error()))})
@@ -235,25 +264,39 @@ func runInflightConnection(res *lp.Result) {
 			reqs = append(reqs, r)
 		}
 		if len(reqs) == n {
-			if _, err := cc.Send(frame.NewFrame(primitive.ProtocolVersion4, 0, &message.Options{})); err == nil {
+			if _, err := cc.Send(request()); err == nil {
 				res.Add(lp.Finding{Kind: "violation", What: "send accepted although N requests are unanswered", Input: id})
 			}
 			// the peer answers all of them; then N more must be accepted
-			for range reqs {
-				if f, err := sc.Receive(); err == nil && f != nil {
-					sc.Send(frame.NewFrame(primitive.ProtocolVersion4, f.Header.StreamId, &message.Supported{}))
-				}
+			if px != nil {
+				px.release()
+				px = nil
 			}
+			within(60*time.Second, func() {
+				for range reqs {
+					if f, err := sc.Receive(); err == nil && f != nil {
+						for try := 0; try < 200; try++ {
+							if sc.Send(frame.NewFrame(primitive.ProtocolVersion4, f.Header.StreamId, &message.Supported{})) == nil {
+								break
+							}
+							time.Sleep(5 * time.Millisecond)
+						}
+					}
+				}
+			})
 			for _, r := range reqs {
 				within(3*time.Second, func() { cc.Receive(r) })
 			}
 			for k := 0; k < n; k++ {
-				if _, err := cc.Send(frame.NewFrame(primitive.ProtocolVersion4, 0, &message.Options{})); err != nil {
+				if _, err := cc.Send(request()); err != nil {
 					res.Add(lp.Finding{Kind: "violation", What: "after all requests are answered fewer than N new ones can be sent", Input: id,
 						Impl: fmt.Sprintf("send %d of %d: %v", k+1, n, firstWords(err.Error()))})
 					break
 				}
 			}
+		}
+		if px != nil {
+			px.release()
 		}
 		cc.Close()
 		srv.Close()
